@@ -423,9 +423,14 @@ func (tp *ethTxPool) addWaiting(tx *etypes.Transaction, address common.Address) 
 	}
 	if waitingTxCount >= tp.waitingLimit {
 		// waiting queue is full, try replace or return err
-		if tp.waiting[address] == nil || !tp.waiting[address].TryReplace(tx) {
+		if tp.waiting[address] == nil {
 			return errTxPoolWaitingQueueIsFull
 		}
+		displaced := tp.waiting[address].TryReplace(tx)
+		if displaced == nil {
+			return errTxPoolWaitingQueueIsFull
+		}
+		delete(tp.all, displaced.Hash())
 	} else {
 		if tp.waiting[address] == nil {
 			tp.waiting[address] = newTxSortedMap()
